@@ -294,6 +294,11 @@ def run(line):
         c = build(r.term())
         d = {k: build(v) for k, v in r.delta()}
         return show(BasicInterpreter(ExecutionPhase.Proof).instantiate(Proved(c), d).conclusion)
+    if op in ('UW', 'UE'):      # cls.unwrap / cls.extract for any class, the base class (11) and Instantiate (10) included
+        cls = [P.EVar, P.SVar, P.Symbol, P.Implies, P.App, P.Exists, P.Mu, P.MetaVar, P.ESubst, P.SSubst, P.Instantiate, P.Pattern][r.int()]
+        x = build(r.term())
+        res = cls.unwrap(x) if op == 'UW' else cls.extract(x)
+        return 'NONE' if res is None else tup(res)
     if op in ('DN', 'DNP'):
         import proof_generation.proofs.kore as kore
 
